@@ -855,3 +855,78 @@ Proof.
   intros. split; [vm_compute; reflexivity|]. split; [vm_compute; reflexivity|]. split; [vm_compute; reflexivity|].
   split; [vm_compute; tauto|]. split; [vm_compute; reflexivity|]. split; vm_compute; reflexivity.
 Qed.
+
+(* ================================================================ ADDENDUM 6 (agent MA): the
+   Init chain of an aggregated SELECT -- FinalOrderPlan.Init, AggregatePlan.Init and the
+   aggregate function constructors of aggr_func.go (Model/AggInit.v), which reject a statement
+   AFTER parse_check has accepted it and before the first storage call: "Function %s require %d
+   arguments", "quantile function second parameter ..." (ExecuteError), "group concat second
+   parameter require string type" (SyntaxError), and whatever error the EVALUATION of the
+   constant second argument of quantile / group_concat on the pair (nil, nil) returns.
+
+   [parse_check_agg fo re fmt_v fxq fxa q] is parse_check followed by that chain (fxa / fxq: the
+   two repairs made on the way, see Properties/C14.v; the theorems hold for either setting).
+   With these, EVERY positional error BuildPlan can return for a query text -- whichever of its
+   stages raises it -- is -1, 0 or a token start, and lies inside the query. *)
+From KV Require Import Model.AggInit Proofs.AggInitProofs.
+
+(* the Init chain invents no position (no NewExecuteError(0, ..) site is reachable in it): a
+   positional error carries the Pos of a node of the checked statement -- of a select field, of
+   the constant argument, or of an ORDER BY item *)
+Theorem agg_init_err_position :
+  forall (fo : fops) (re : string -> string -> res bool) (fmt_v : F fo -> string) (fxq : bool) (c : Checker.stmt),
+  re_plain re ->
+  forall p, (init_check fo re fmt_v fxq c = Err (EExec p) \/ init_check fo re fmt_v fxq c = Err (ESyntax p)) ->
+  In p (cstmt_positions c).
+Proof. exact init_check_err_position_lemma. Qed.
+Print Assumptions agg_init_err_position.
+
+(* rejections before any plan node is initialised (the stages of parse_check, with either call
+   validation) *)
+Theorem agg_err_pos_is_token_start_and_in_query :
+  forall (fo : fops) (re : string -> string -> res bool) (fmt_v : F fo -> string) (fxq fxa : bool)
+         (q : string) (k : pckind) (z : Z),
+  parse_check_agg fo re fmt_v fxq fxa q = PAErr k z ->
+  pos_is_token_start (zstarts (lex q)) z = true /\ pos_in_query q z = true.
+Proof. exact parse_check_agg_err_position_thm. Qed.
+Print Assumptions agg_err_pos_is_token_start_and_in_query.
+
+(* rejections by the Init chain: an ExecuteError or SyntaxError at a token start inside the
+   query, or an error without a position (the plain error of a distance function met while the
+   constant argument is evaluated) *)
+Theorem agg_init_err_pos_is_token_start_and_in_query :
+  forall (fo : fops) (re : string -> string -> res bool) (fmt_v : F fo -> string) (fxq fxa : bool)
+         (q : string) (e : err),
+  re_plain re ->
+  parse_check_agg fo re fmt_v fxq fxa q = PAInitErr e ->
+  init_err_at (fun p => pos_is_token_start (zstarts (lex q)) (Z.of_nat p) = true /\
+                        pos_in_query q (Z.of_nat p) = true) e.
+Proof. exact parse_check_agg_init_err_position_thm. Qed.
+Print Assumptions agg_init_err_pos_is_token_start_and_in_query.
+
+(* accepted statements keep the guarantee of accepted_positions_are_token_starts *)
+Theorem agg_accepted_positions_are_token_starts :
+  forall (fo : fops) (re : string -> string -> res bool) (fmt_v : F fo -> string) (fxq fxa : bool)
+         (q : string) (s : StmtParser.stmt) (c : Checker.stmt) (a : bool),
+  parse_check_agg fo re fmt_v fxq fxa q = PAOk s c a ->
+  parse_real fo (lex q) = SOk s /\
+  Forall (prov (lex q)) (stmt_positions s) /\
+  Forall (prov (lex q)) (cstmt_positions c).
+Proof. exact parse_check_agg_ok_positions_thm. Qed.
+Print Assumptions agg_accepted_positions_are_token_starts.
+
+(* non-vacuity: the four kinds of rejection of the Init chain, with the byte the position points
+   at; concrete floats (Base/Flt.v) where the parameter of quantile is compared *)
+From KV Require Import Base.Flt.
+Example agg_init_rejections_nonvacuous :
+  let pa := parse_check_agg prim_fops (fun _ _ => OutOfModel) Fold.pf_fmt_v true false in
+  pa "select count(1, 2) as c where key > '' order by c limit 1" = PAInitErr (EExec 7) /\
+  pa "select key, quantile(value, 2.5) where key > '' group by key" = PAInitErr (EExec 28) /\
+  String.get 28 "select key, quantile(value, 2.5) where key > '' group by key" = Some "2"%char /\
+  pa "select quantile(value, 1) where key > ''" = PAInitErr (EExec 23) /\
+  pa "select group_concat(value, 1 + 2) where key > ''" = PAInitErr (ESyntax 27) /\
+  pa "select group_concat(key, str(1 / int(key))) where key > ''" = PAInitErr (EExec 33) /\
+  String.get 33 "select group_concat(key, str(1 / int(key))) where key > ''" = Some "i"%char /\
+  pa "select quantile(key, l2_distance(list(1, 2), list(1))) where key > ''" = PAInitErr EOther /\
+  (exists s c, pa "select key, quantile(value, 0.5), group_concat(value, ',') where key > '' group by key" = PAOk s c true).
+Proof. repeat split; try (vm_compute; reflexivity). eexists. eexists. vm_compute. reflexivity. Qed.
